@@ -176,4 +176,25 @@ theorem C01_source_skeletons_5 :
     Gen.Skel.PosNode_Read = Expected.Skel.PosNode_Read :=
   ⟨rfl, rfl⟩
 
+set_option maxRecDepth 20000 in
+/-- A replica applies a received transaction file under the write lock, only at the expected
+    position, and only after the stored copy was synced and verified — facts proved by `decide`
+    about the skeleton of `processLTXStreamFrame` regenerated from store.go: the write lock is
+    taken before the position is read and compared; the comparison comes before the temporary
+    file is created; the file is synced, then verified, then published by the one `Rename`, and
+    the one `ApplyLTXNoLock` comes after that. -/
+theorem C01_replica_verifies_before_publishing_and_applying :
+    let ix (sk : List (String × String)) (x : String × String) (d : Nat) := (sk.findIdx? (· == x)).getD d
+    let t := Gen.Skel.Store_processLTXStreamFrame
+    ix t ("call", "db.AcquireWriteLock") 1000 < ix t ("call", "db.Pos") 0 ∧
+    ix t ("call", "db.AcquireWriteLock") 1000 < ix t ("if", "pos != expectedPos") 0 ∧
+    ix t ("if", "pos != expectedPos") 1000 < ix t ("call", "s.OS.Create") 0 ∧
+    ix t ("call", "s.OS.Create") 1000 < ix t ("call", "f.Sync") 0 ∧
+    ix t ("call", "f.Sync") 1000 < ix t ("call", "ltx.NewDecoder(f).Verify") 0 ∧
+    ix t ("call", "ltx.NewDecoder(f).Verify") 1000 < ix t ("call", "s.OS.Rename") 0 ∧
+    ix t ("call", "s.OS.Rename") 1000 < ix t ("call", "db.ApplyLTXNoLock") 0 ∧
+    (t.filter (· == ("call", "s.OS.Rename"))).length = 1 ∧
+    (t.filter (· == ("call", "db.ApplyLTXNoLock"))).length = 1 := by
+  decide
+
 end LiteFSVerif.C01
